@@ -706,6 +706,21 @@ class Exec:
             return BUILTIN_VALUES[k]
         if k in self.contracts or k in self.inline or k in SHIMS:
             return ("fn", k)
+        # a function defined at top level of the same source file is executed in place (its body is real code too)
+        if self.opts.get("auto_inline_same_module", True):
+            cur = self._fnstack[-1] if self._fnstack else self.fn
+            try:
+                from .extract import Fn as _Fn, ExtractError as _EE
+                try:
+                    f2 = _Fn(cur.relpath, k)
+                except _EE:
+                    f2 = None
+                if f2 is not None:
+                    self.inline[k] = (f2, None)
+                    self.called.add(f2.key)
+                    return ("fn", k)
+            except Exception:
+                pass
         raise SymExError(f"unbound name {k!r} at line {node.lineno}")
 
     def ev_Tuple(self, node, env):
